@@ -31,9 +31,15 @@ def gen(rng, tier):
         net["nodes"]["kn_" + a] = ["not", [a], False]
         net["nodes"]["kc_" + a] = [rng.choice(("and", "nor", "xnor")), [a, "kn_" + a], True]
     names = list(net["nodes"])
+    gates = [n for n in names if net["nodes"][n][0] in ref.GATES]
     picks = []
     for _ in range(rng.randint(1, 3)):
-        picks.append(rng.choice(names))
+        r = rng.random()
+        if gates and r < 0.7:
+            # later gates have wider cones
+            picks.append(gates[min(len(gates) - 1, int(len(gates) * (1 - rng.random() ** 2)))])
+        else:
+            picks.append(rng.choice(names))
     outs = ref.outputs(net)
     eps = None
     if rng.random() < 0.4 and outs:
